@@ -35,38 +35,9 @@ Proof.
   intros H. destruct (read_print c x H) as (y & -> & He & Ht). cbn [roundtrip_ok]. rewrite He, Ht.
   destruct (type_of y); reflexivity.
 Qed.
-(* the model never faults inside the guard, so the comparison function agrees with the theorem *)
-Lemma no_fault_in_domain c x : in_domain c x = true -> print_faults c x = false.
-Proof.
-  intros H. unfold print_faults. destruct (p_pretty c) eqn:Ep; [|reflexivity].
-  destruct (p_case c); try reflexivity. cbn [andb].
-  destruct (negb (is_atom x)) eqn:Ea; [|reflexivity]. cbn [andb].
-  destruct (has_empty_sym x) eqn:Ee; [|reflexivity]. exfalso.
-  unfold in_domain in H. apply andb_true_iff in H as [_ Hd].
-  (* an empty symbol below a list is outside the guard when pretty *)
-  assert (G : forall y, dom c true y = true -> has_empty_sym y = false).
-  { induction y as [y Ha|ys IH|ys tl IH IHtl|ys IH|rank rows IH] using obj_ind'; intros Hy.
-    - destruct y; try discriminate Ha; try reflexivity. destruct bs; [|reflexivity]. cbn in Hy. discriminate Hy.
-    - cbn [dom] in Hy. rewrite dom_all, Ep in Hy. apply andb_true_iff in Hy as [_ Hall]. cbn [has_empty_sym].
-      induction ys as [|z zs IHz]; [reflexivity|]. cbn [forallb] in Hall. apply andb_true_iff in Hall as [Hz Hzs].
-      inversion IH; subst. rewrite (H1 Hz). apply IHz; assumption.
-    - cbn [dom] in Hy. rewrite dom_all, Ep in Hy. apply andb_true_iff in Hy as [Hy _]. apply andb_true_iff in Hy as [Hy Htl].
-      apply andb_true_iff in Hy as [Hy Hat]. apply andb_true_iff in Hy as [_ Hall]. cbn [has_empty_sym].
-      assert (Et : has_empty_sym tl = false) by (apply IHtl; destruct tl; try discriminate Hat; exact Htl). rewrite Et, orb_false_r.
-      clear Et. induction ys as [|z zs IHz]; [reflexivity|]. cbn [forallb] in Hall. apply andb_true_iff in Hall as [Hz Hzs].
-      inversion IH; subst. rewrite (H1 Hz). apply IHz; assumption.
-    - cbn [dom] in Hy. rewrite dom_all, Ep in Hy. apply andb_true_iff in Hy as [_ Hall]. cbn [has_empty_sym].
-      induction ys as [|z zs IHz]; [reflexivity|]. cbn [forallb] in Hall. apply andb_true_iff in Hall as [Hz Hzs].
-      inversion IH; subst. rewrite (H1 Hz). apply IHz; assumption.
-    - cbn [dom] in Hy. rewrite dom_all, Ep in Hy. apply andb_true_iff in Hy as [_ Hall]. cbn [has_empty_sym].
-      induction rows as [|z zs IHz]; [reflexivity|]. cbn [forallb] in Hall. apply andb_true_iff in Hall as [Hz Hzs].
-      inversion IH; subst. rewrite (H1 Hz). apply IHz; assumption. }
-  assert (Hd' : dom c true x = true) by (rewrite dom_inl; [exact Hd|destruct x; try exact I; discriminate Ea]).
-  rewrite (G x Hd') in Ee. discriminate Ee.
-Qed.
 (* hence code 3 of the correspondence cannot arise from the model itself *)
 Theorem model_meets_spec_in_guard c x : in_domain c x = true -> roundtrip_ok x (model_read (model_text c x)) = true.
-Proof. intros H. unfold model_text. rewrite (no_fault_in_domain c x H). cbn [model_read]. apply read_print_ok, H. Qed.
+Proof. intros H. unfold model_text. cbn [model_read]. apply read_print_ok, H. Qed.
 
 (* ------------------------------------------------------------------------------------------ *)
 (* integers, in their own right: every integer, every base                                       *)
@@ -206,13 +177,10 @@ Definition w_char_nul := (cfg_flat, OChr 0).
 Definition w_symbol_dot := (cfg_flat, OList [OSym [97]; OSym [46]; OSym [98]]).
 (* the keyword |:a b| is printed :a b *)
 Definition w_keyword_space := (cfg_flat, OSym [58; 97; 32; 98]).
-(* (||) with *print-pretty* t and :capitalize: caseName indexes the first rune of the empty name *)
-Definition w_empty_symbol_capitalize := (Pcfg 10 false CCap true 80 true true true, OList [OSym []]).
 
 Definition refutation_witnesses : list (pcfg * obj) :=
   [w_string_quote; w_single_float; w_integral_double; w_ratio_radix; w_array_radix; w_pretty_bars; w_symbol_question;
-   w_symbol_numeric; w_symbol_non_ascii; w_symbol_bar; w_symbol_nil; w_char_paren; w_char_nul; w_symbol_dot; w_keyword_space;
-   w_empty_symbol_capitalize].
+   w_symbol_numeric; w_symbol_non_ascii; w_symbol_bar; w_symbol_nil; w_char_paren; w_char_nul; w_symbol_dot; w_keyword_space].
 Theorem outside_guard_refuted : forallb (fun w => refuted (fst w) (snd w)) refutation_witnesses = true.
 Proof. vm_compute. reflexivity. Qed.
 (* what the model makes of some of them *)
@@ -223,7 +191,10 @@ Proof. vm_compute. reflexivity. Qed.
 Example array_radix_text : model_text (fst w_array_radix) (snd w_array_radix) =
   Some [35; 50; 46; 65; 40; 40; 49; 46; 32; 50; 46; 41; 32; 40; 51; 46; 32; 52; 46; 41; 41].
 Proof. vm_compute. reflexivity. Qed.
-Example empty_symbol_faults : model_text (fst w_empty_symbol_capitalize) (snd w_empty_symbol_capitalize) = None.
+(* repaired (C03-2): (||) under :capitalize no longer faults; it is printed (()) like under the other cases,
+   which is the dropped-bars finding *)
+Example empty_symbol_capitalize_prints :
+  model_text (Pcfg 10 false CCap true 80 true true true) (OList [OSym []]) = Some [40; 40; 41; 41].
 Proof. vm_compute. reflexivity. Qed.
 
 (* ------------------------------------------------------------------------------------------ *)
